@@ -1099,6 +1099,19 @@ pub enum Op {
     InlineImage { image: Arc<ImageXObject> },
 }
 
+/// `/Tag /MC1 BDC`: a name operand refers to a property list in the resources
+fn copy_property_list(properties: &Option<Primitive>, cloner: &mut impl Cloner, old_resources: &Resources, resources: &mut Resources) -> Result<()> {
+    if let Some(Primitive::Name(name)) = properties {
+        let name = Name(name.clone());
+        if !resources.properties.contains_key(&name) {
+            if let Some(list) = old_resources.properties.get(&name) {
+                resources.properties.insert(name, list.deep_clone(cloner)?);
+            }
+        }
+    }
+    Ok(())
+}
+
 pub fn deep_clone_op(op: &Op, cloner: &mut impl Cloner, old_resources: &Resources, resources: &mut Resources) -> Result<Op> {
     match *op {
         Op::GraphicsState { ref name } => {
@@ -1110,10 +1123,24 @@ pub fn deep_clone_op(op: &Op, cloner: &mut impl Cloner, old_resources: &Resource
             Ok(Op::GraphicsState { name: name.clone() })
         }
         Op::MarkedContentPoint { ref tag, ref properties } => {
+            copy_property_list(properties, cloner, old_resources, resources)?;
             Ok(Op::MarkedContentPoint { tag: tag.clone(), properties: properties.deep_clone(cloner)? })
         }
         Op::BeginMarkedContent { ref tag, ref properties } => {
+            copy_property_list(properties, cloner, old_resources, resources)?;
             Ok(Op::BeginMarkedContent { tag: tag.clone(), properties: properties.deep_clone(cloner)? })
+        }
+        Op::StrokeColor { color: Color::Other(ref args) } | Op::FillColor { color: Color::Other(ref args) } => {
+            // `/P1 scn`: the last operand names a pattern resource
+            if let Some(Primitive::Name(name)) = args.last() {
+                let name = Name(name.clone());
+                if !resources.pattern.contains_key(&name) {
+                    if let Some(pattern) = old_resources.pattern.get(&name) {
+                        resources.pattern.insert(name, pattern.deep_clone(cloner)?);
+                    }
+                }
+            }
+            Ok(op.clone())
         }
         Op::TextFont { ref name, size } => {
             if !resources.fonts.contains_key(name) {
